@@ -634,6 +634,61 @@ pub fn run(tier: &str) -> i32 {
             }
         }
     }
+    // a subscriber with a backlog: its connection does not take the queued lines for a while (a burst of writes, a slow
+    // client) while the keys it watches are written; when it takes them again, every committed change is there, both
+    // lines of it (changed, changed-version), in the order of the commits. (The 100-message bound of a session's channel
+    // applies to the replies of its own commands; a notification is sent through a handle of its own.)
+    let mut backlog_stats = (0u64, 0u64, 0u64);
+    {
+        let (node, _adm) = mem_node(&[("bl", "none")]);
+        let dbs = node.dbs.clone();
+        let mut writer = Session::new();
+        writer.call(&dbs, "use-db bl tok");
+        let shapes: Vec<(usize, usize)> = if thorough { vec![(45, 1), (60, 1), (99, 1), (101, 1), (150, 1), (400, 1), (40, 3), (70, 3), (300, 4), (1500, 2)] } else { vec![(45, 1), (60, 1), (101, 1), (150, 1), (70, 3), (400, 2)] };
+        for (round, (writes, nkeys)) in shapes.into_iter().enumerate() {
+            for kind in ["set", "set-safe", "increment"] {
+                let mut sub = Session::new();
+                sub.call(&dbs, "use-db bl tok");
+                let keys: Vec<String> = (0..nkeys).map(|i| format!("b{}{}k{}", round, kind, i)).collect();
+                for k in &keys {
+                    sub.call(&dbs, &format!("watch {}", k));
+                }
+                sub.drain();
+                let mut want: Vec<String> = vec![];
+                for j in 0..writes {
+                    let k = &keys[j % nkeys];
+                    let n = j / nkeys; // number of earlier writes of this key = version of the stored value after this one - 1 ... see below
+                    let (line, val, ver) = match kind {
+                        "set" => (format!("set {} {}", k, 7000 + j), format!("{}", 7000 + j), n as i32 + 1),
+                        "set-safe" => (format!("set-safe {} {} {}", k, n, 7000 + j), format!("{}", 7000 + j), n as i32 + 1),
+                        _ => (format!("increment {} 1", k), format!("{}", n + 1), n as i32 + 1),
+                    };
+                    if writer.call(&dbs, &line).is_error() {
+                        v.inconclusive("backlog part: a write of the burst was refused");
+                    }
+                    let _ = ver;
+                    want.push(format!("{} {}", k, val));
+                }
+                backlog_stats.0 += 1;
+                backlog_stats.1 += writes as u64;
+                let got = sub.drain();
+                backlog_stats.2 = backlog_stats.2.max(got.len() as u64);
+                let changed: Vec<String> = got.iter().filter(|l| l.starts_with("changed ")).map(|l| l.trim_end()["changed ".len()..].to_string()).collect();
+                // changed-version <key> <version> <value>
+                let versioned: Vec<String> = got.iter().filter(|l| l.starts_with("changed-version ")).map(|l| { let p: Vec<&str> = l.trim_end().splitn(4, ' ').collect(); format!("{} {}", p.get(1).unwrap_or(&""), p.get(3).unwrap_or(&"")) }).collect();
+                for (name, list) in [("changed", &changed), ("changed-version", &versioned)] {
+                    if list != &want {
+                        let first = list.iter().zip(want.iter()).position(|(a, b)| a != b).unwrap_or(list.len().min(want.len()));
+                        let problem = if list.len() < want.len() { "committed-change-not-notified" } else { "notification-duplicated-or-reordered" };
+                        v.report(json!({"check": "watch", "problem": problem, "detail": "subscriber-with-a-backlog", "line": name, "op": kind}), json!({"writes": writes, "watched_keys": nkeys, "lines_received": list.len(), "first_difference_at_write": first, "queued_lines_when_it_read_again": got.len()}));
+                        break;
+                    }
+                }
+                sub.disconnect(&dbs);
+            }
+        }
+    }
+    ev.set("subscribers_with_a_backlog", json!({"bursts": backlog_stats.0, "writes_notified_while_nothing_was_taken": backlog_stats.1, "largest_backlog_lines": backlog_stats.2}));
     // a subscriber over the real TCP transport that does not read its socket for a while (the notifications fill the
     // socket buffers and the connection's write buffer), then reads again: up to the end of its connection it has been
     // sent every committed change in order - the server may end the connection of a client it cannot write to (a
